@@ -543,6 +543,9 @@ func (m *c20Machine) finalize(s *c20Sub, cause string, failures int, forever boo
 	defer deadline.Stop()
 	answered := 0
 	answer := func(c *c20Call) {
+		if cause == "cancel" {
+			return // its context is done: like every real getter the fake returns by itself, with an error
+		}
 		if forever || answered < failures {
 			answered++
 			m.failed++
@@ -553,9 +556,7 @@ func (m *c20Machine) finalize(s *c20Sub, cause string, failures int, forever boo
 		c.rel <- c20Outcome{}
 	}
 	if s.cur != nil {
-		if cause != "cancel" { // a cancelled retrieval returns by itself, as real getters do
-			answer(s.cur)
-		}
+		answer(s.cur)
 		s.cur = nil
 	}
 	producedAtCause := s.produced
